@@ -62,6 +62,8 @@ Le(a, b, f) == a < b \/ (~f /\ a = b)    \* the code's reading is non-strict
 -----------------------------------------------------------------------------
 (* Label sets: removeEmptyLabels + Alert.Validate (label part)              *)
 
+\* (TLC evaluates the constant functions below once.  Do not name an operator
+\* parameter like a variable of any module: TLC then re-evaluates them at every use.)
 NonEmpty(v) == LET ls == LabelsOf[v]
                    D  == {n \in DOMAIN ls : ls[n] # ""}
                IN [n \in D |-> ls[n]]
@@ -70,7 +72,9 @@ NonEmpty(v) == LET ls == LabelsOf[v]
 CanonF == [v \in DOMAIN LabelsOf |->
              LET ls == NonEmpty(v)
              IN IF DOMAIN ls = {} \/ "" \in DOMAIN ls THEN ""
-                ELSE CHOOSE c \in CanonIds : LabelsOf[c] = ls]
+                ELSE IF \E c \in CanonIds : LabelsOf[c] = ls
+                       THEN CHOOSE c \in CanonIds : LabelsOf[c] = ls
+                       ELSE "?"]      \* (a label set outside this configuration)
 Canon(v)   == CanonF[v]
 Val(c, n)  == IF n \in DOMAIN LabelsOf[c] THEN LabelsOf[c][n] ELSE ""
 NameF      == [c \in CanonIds |-> Val(c, "alertname")]
@@ -226,7 +230,9 @@ SilOn  == /\ ~SilLive
           /\ sil' = [start |-> now, end |-> Inf]
           /\ last' = [op |-> "silon"]
           /\ UNCHANGED <<now, store, buckets, limited, orph>>
-SilOff == /\ SilLive /\ sil.end = Inf
+\* (not at the instant of its creation: two writes to one silence at one instant are
+\* outside every property's quantifier - the second is dropped by last-writer-wins)
+SilOff == /\ SilLive /\ sil.end = Inf /\ sil.start < now
           /\ sil' = [sil EXCEPT !.end = now]
           /\ last' = [op |-> "siloff"]
           /\ UNCHANGED <<now, store, buckets, limited, orph>>
